@@ -5,7 +5,7 @@ import sys
 
 from .builtins import builtin_commands
 from .containers import CaseInsensitiveDict
-from .deferred import Promise, wait, BaseDeferred, Deferred, SizedDeferred, DeferredCycle
+from .deferred import Promise, wait, BaseDeferred, Deferred, SizedDeferred, DeferredCycle, readiness_changed
 from .devices import open_device
 from .formats import file_formats
 from .metacommand_impl import get_as_int
@@ -52,6 +52,7 @@ class Compiler:
             return self.compile_block(state, file.body, start)
         finally:
             self.unfinished_internal_prefixes.discard(state["internal_symbol_prefix"])
+            readiness_changed()
 
 
     def compile_block(self, state, block, start):
@@ -169,6 +170,7 @@ class Compiler:
             return
 
         self.symbols[name] = (label, addr)
+        readiness_changed()
 
         if label.is_extern:
             self.declare_external_symbol(label, label.name, state)
@@ -193,6 +195,7 @@ class Compiler:
 
         state["internal_symbols_list"].append(insn.target.name)
         self.symbols[name] = (insn, Deferred[int](lambda: insn.value.resolve(state), insn.target.name))
+        readiness_changed()
 
         if insn.is_extern:
             self.declare_external_symbol(insn, insn.target.name, state)
@@ -247,6 +250,7 @@ class Compiler:
             )
         else:
             self.extern_symbols_mapping[name] = location, state["internal_symbol_prefix"] + name
+            readiness_changed()
 
 
     def compile_insn(self, insn, state):
